@@ -18,6 +18,7 @@ import (
 	"strings"
 
 	"github.com/bufbuild/buf/private/bufpkg/bufprotosource"
+	"github.com/bufbuild/buf/private/pkg/slicesext"
 	"github.com/bufbuild/buf/private/pkg/stringutil"
 )
 
@@ -73,7 +74,9 @@ func getImportCycleIfExists(
 	}
 	usedPackageMap[pkg] = struct{}{}
 	// Will never equal pkg
-	for directlyImportedPackage := range packageToDirectlyImportedPackageToFileImports[pkg] {
+	//
+	// Iterate in sorted order so that the reported cycle does not depend on map iteration order.
+	for _, directlyImportedPackage := range slicesext.MapKeysToSortedSlice(packageToDirectlyImportedPackageToFileImports[pkg]) {
 		// Can equal "" per the function signature of PackageToDirectlyImportedPackageToFileImports
 		if directlyImportedPackage == "" {
 			continue
